@@ -1,3 +1,4 @@
+pub mod catchup;
 pub mod cluster;
 pub mod hostile;
 pub mod kv;
